@@ -89,7 +89,7 @@ Definition op_okb (st : state) (sn : snap) (o : op) : bool :=
       | Some q => quota_okb (set_spec q mx mindecl mn w)
       | None => true
       end
-  | OPodAdd _ _ _ req keys | OPodAddBound _ _ _ req keys => pod_okb req keys
+  | OPodAdd _ _ _ req keys _ | OPodAddBound _ _ _ req keys _ => pod_okb req keys
   | OReserve id =>
       match find_pod id (pods st) with
       | Some p =>
